@@ -5,13 +5,24 @@
    Gen/TabColor.v); the tables are regenerated from the source on every run:
    CUBE / GREYS / grey levels of src/encoder.rs as exact decimals, and the
    library's sRGB->linear conversion of the 256 channel values (exact values of
-   the f32 results).  The implementation evaluates the same algorithm in f32;
-   the correspondence run compares it with the exact optimum up to 1e-6 in
-   distance (Corr/C20Corr.v; exhaustive runs: 30 near-ties among 2^24 colours,
-   worst excess 2.6e-7). *)
+   the f32 results).
+
+   WHAT IS PROVED AND WHAT IS RUN.  The theorems are about the EXACT-RATIONAL
+   algorithm (names `_exact_model`); the implementation evaluates the same
+   algorithm in f32, which is not modelled.  EPSILON = 1e-6 linear-light units
+   (Color256.tol256) is the single tolerance:
+     - proved: every typed table constant is within eps of the library's own
+       linearisation (C20_tables); hence the exact model's entry, measured at the
+       true palette positions, is closest up to 12 eps in SQUARED distance
+       (C20_closest_256_true_palette_upto_eps);
+     - run on every check, exhaustively over all 2^24 colours x 3 roles (harness
+       tool c20sweep, exact integers) and on the sampled Coq cases: the entry the
+       f32 implementation emits is within eps in DISTANCE of the brute-force
+       optimum at the true palette positions (observed: 30 colours not exactly
+       optimal, worst excess 2.62e-7) and equals the exact model's entry. *)
 From Coq Require Import List NArith ZArith Bool Sorted.
 From SNT Require Import Base.Outcome Encoder.Encode Encoder.Color256 Encoder.Color256Proofs Encoder.VT Encoder.Denote
-  Encoder.EncodeMeaning Gen.TabColor.
+  Encoder.EncodeMeaning Encoder.EncodeC20 Gen.TabColor.
 Import ListNotations.
 Local Open Scope Z_scope.
 
@@ -32,13 +43,28 @@ Proof. exact pal_algo_optimal. Qed.
 Theorem C20_tables : tables_ok = true.
 Proof. exact tables_ok_true. Qed.
 
-(* 3. hence for every 8-bit colour: a closest entry among all 240 non-system ones *)
-Theorem C20_closest_256 :
-  forall c : rgba,
+(* 3. hence for every 8-bit colour the exact model picks a closest entry among all 240
+      non-system ones, positions as typed in the tables *)
+Theorem C20_closest_256_exact_model :
+  forall c : rgba, ca c = 255%N ->      (* opaque: the code premultiplies by alpha, the model does not *)
   (16 <= pal256_exact c < 256)%N /\
   forall m, (16 <= m < 256)%N ->
     d2 (lin_vec c) (entry cube_z greys_z (pal256_exact c)) <= d2 (lin_vec c) (entry cube_z greys_z m).
-Proof. exact pal256_exact_optimal. Qed.
+Proof. exact pal256_exact_optimal_opaque. Qed.
+
+(* 3b. EPSILON statement: at the TRUE palette positions (library's own linearisation of the
+       xterm levels 0,95,135,175,215,255 / 8+10k) the exact model's entry is closest up to
+       eps_sq_bound = 12 * eps * 1 in squared linear-light distance, eps = 1e-6 *)
+Theorem C20_closest_256_true_palette_upto_eps :
+  forall (c : rgba), ca c = 255%N -> forall m, (16 <= m < 256)%N ->
+    d2 (lin_vec c) (entry xcube_z xgreys_z (pal256_exact c))
+    <= d2 (lin_vec c) (entry xcube_z xgreys_z m) + eps_sq_bound.
+Proof. exact pal256_true_palette_upto_eps_opaque. Qed.
+
+(* 3c. the tolerance predicate of the correspondence check means "sqrt xx <= sqrt yy + eps" *)
+Theorem C20_tolerance_predicate :
+  forall a b e, 0 <= a -> 0 <= b -> 0 <= e -> (sqrt_le_plus (a * a) (b * b) e = true <-> a <= b + e).
+Proof. exact sqrt_le_plus_squares. Qed.
 
 (* 4. grey depth: the level is a nearest of the four by luma ... *)
 Theorem C20_gray_nearest :
@@ -58,22 +84,49 @@ Theorem C20_truecolor :
   forall (pal256 gray4 : rgba -> N), (forall c, (pal256 c < 256)%N) ->
   forall (glyphs kitty : bool) (f : face), cmd_ok (Face f) = true ->
   exists bs t, encode pal256 gray4 (mkCaps TrueColor glyphs kitty) (Face f) = Ok bs /\
-    vt_ops bs = [OSgr t] /\
+    vt_ops bs = [OSgr t] /\ t_bad t = false /\
     forall prior : rendition, rt_apply t prior = face_rendition f.
 Proof. exact c05_face_exact_thm. Qed.
 
-(* the brute-force minimum used by the correspondence predicate is the minimum *)
-Theorem C20_bruteforce_is_minimum :
-  forall cube greys v m, (16 <= m < 256)%N -> best_d2 cube greys v <= d2 v (entry cube greys m).
-Proof. exact best_d2_spec. Qed.
+(* 6. ROLES x DEPTHS: the bytes the encoder model (with the reduction inside, encode_c20) emits for
+      FaceModify { fg, bg, underline_color } are one complete SGR sequence that sets exactly
+        true colour   the three colours with unchanged channels,
+        256 colours   the palette indices pal256_exact of the three colours,
+        grey          the system colour of the level gray4_exact for fg and bg, and NOTHING for the
+                      underline colour (the library sends no grey rendering of it: a decision of
+                      the code, recorded here as part of the specification),
+      and touches no other aspect of the rendition. *)
+Theorem C20_roles :
+  forall d glyphs kitty fg bg ul,
+  rgba_ok fg = true -> rgba_ok bg = true -> rgba_ok ul = true ->
+  exists bs,
+    encode_c20 (mkCaps d glyphs kitty) (FaceModify (colours_fm fg bg ul)) = Ok bs /\
+    vt_complete bs = true /\
+    vt_ops bs =
+      [OSgr match d with
+            | TrueColor => only_colours (Some (CRgb (cr fg) (cg fg) (cb fg))) (Some (CRgb (cr bg) (cg bg) (cb bg)))
+                                        (Some (CRgb (cr ul) (cg ul) (cb ul)))
+            | EightBit => only_colours (Some (CIdx (pal256_exact fg))) (Some (CIdx (pal256_exact bg)))
+                                       (Some (CIdx (pal256_exact ul)))
+            | Gray => only_colours (Some (CIdx (gray_entry (gray4_exact fg)))) (Some (CIdx (gray_entry (gray4_exact bg))))
+                                   None
+            end].
+Proof. exact c20_roles. Qed.
 
-Check C20_closest_256 :
-  forall c : rgba,
+(* 7. the brute-force minimum used by the correspondence predicate (best_d2_tab: the 240 true
+      palette positions, tabulated once) is below the distance of every entry *)
+Theorem C20_bruteforce_is_minimum :
+  forall v m, (16 <= m < 256)%N -> best_d2_tab v <= d2 v (entry xcube_z xgreys_z m).
+Proof. exact best_d2_tab_spec. Qed.
+
+Check C20_closest_256_exact_model :
+  forall c : rgba, ca c = 255%N ->
   (16 <= pal256_exact c < 256)%N /\
   forall m, (16 <= m < 256)%N ->
     d2 (lin_vec c) (entry cube_z greys_z (pal256_exact c)) <= d2 (lin_vec c) (entry cube_z greys_z m).
 
 Example C20_nonvacuous :
+  eps_sq_bound * 1000000 = 12 * color_den * color_den /\
   pal256_exact (mkRgba 128 128 128 255) = 244%N /\          (* a grey-ramp entry beats the cube *)
   pal256_exact (mkRgba 255 0 0 255) = 196%N /\              (* a cube corner *)
   pal256_exact (mkRgba 3 3 3 255) = 16%N /\                 (* cube black beats the darkest grey *)
